@@ -70,7 +70,7 @@ impl Report for BalanceGroupReporter {
             &price_lookup_ctx,
             bal_acc_sel.as_ref(),
             cfg,
-        );
+        )?;
 
         write_acc_sel_checksum(cfg, writer, bal_acc_sel.as_ref())?;
 
